@@ -501,7 +501,78 @@ class InterpBase:
         i = self.ev(e.slice, env, mod, fn)
         return self.do_index(base, i, env, e)
 
+    # ---- byte strings under construction: positions resolved through the item list
+    @staticmethod
+    def _item_octets(it_):
+        """fixed-size item -> list of per-octet terms (MSB first); None for variable items"""
+        import struct as _st
+        if it_.k == "u8":
+            return [it_.a[0]]
+        if it_.k == "lit":
+            return [C(b) for b in it_.a[0]]
+        if it_.k == "packed":
+            fmt = it_.a[0]
+            code = fmt.lstrip("!<>=@")
+            if fmt[:1] in ("!", ">") and len(code) == 1 and code in "BHIQ":
+                n = _st.calcsize("!" + code)
+                return [binop("&", binop(">>", it_.a[1], C(8 * (n - 1 - i))), C(0xFF)) for i in range(n)]
+        return None
+
+    def bcat_tail(self, b, lo):
+        """b[lo:] for an item-aligned start `lo` (constant or symbolic): -> bcat term or None"""
+        from .linear import linearize, Lin
+        from .terms import item_len
+        want = linearize(lo)
+        acc = Lin({}, 0)
+        items = list(b.a[0])
+        for i, it_ in enumerate(items):
+            if acc.key() == want.key():
+                return bcat(tuple(items[i:]))
+            if it_.k in ("alt", "rep"):
+                return None
+            octs = self._item_octets(it_)
+            if octs is not None and want.is_const() and acc.is_const() and acc.c < want.c < acc.c + len(octs):
+                k = want.c - acc.c
+                return bcat(tuple(T("u8", o) for o in octs[k:]) + tuple(items[i + 1:]))
+            if it_.k == "bytes" and (want - acc).is_const() and (want - acc).c > 0 and i == len(items) - 1:
+                return bcat((T("bytes", T("slice", it_.a[0], C((want - acc).c), NONE, ty="bytes")),))
+            acc = acc + linearize(item_len(it_))
+        if acc.key() == want.key():
+            return bcat()
+        return None
+
     def do_slice(self, base, lo, hi, env, node):
+        if base.k == "bcat" and len(base.a[0]) > 1 and is_const(hi, None):
+            r = self.bcat_tail(base, lo)
+            if r is not None:
+                if len(r.a[0]) == 1 and r.a[0][0].k == "bytes":
+                    return r.a[0][0].a[0] if r.a[0][0].a[0].k == "slice" else r
+                return r
+        if base.k == "bcat" and len(base.a[0]) > 1 and lo.k == "const" and hi.k == "const" and isinstance(hi.a[0], int) and isinstance(lo.a[0], int):
+            # constant window inside the fixed-size prefix
+            octs = []
+            for it_ in base.a[0]:
+                o = self._item_octets(it_)
+                if o is None:
+                    break
+                octs += o
+            if 0 <= lo.a[0] <= hi.a[0] <= len(octs):
+                win = octs[lo.a[0]:hi.a[0]]
+                if all(o.k == "const" for o in win):
+                    return C(bytes(o.a[0] for o in win))
+                return bcat(tuple(T("u8", o) for o in win))
+            items = base.a[0]
+            fixed = 0
+            allfixed = True
+            for it_ in items[:-1]:
+                o = self._item_octets(it_)
+                if o is None:
+                    allfixed = False
+                    break
+                fixed += len(o)
+            if allfixed and items[-1].k == "bytes" and lo.a[0] >= fixed:
+                # a constant window that lies entirely in the trailing payload
+                return self.do_slice(items[-1].a[0], C(lo.a[0] - fixed), C(hi.a[0] - fixed), env, node)
         if base.k == "gamma":
             return gamma(base.a[0], self.do_slice(base.a[1], lo, hi, env, node),
                          self.do_slice(base.a[2], lo, hi, env, node))
@@ -556,8 +627,19 @@ class InterpBase:
                         return v
             self.log_raise("KeyError", env, node, kind="key")
             return T("call", "dictget", (base, i))
+        if base.k == "bcat" and i.k == "const" and isinstance(i.a[0], int) and i.a[0] >= 0 and len(base.a[0]) > 1:
+            # index into a byte string under construction: resolve through the fixed-size prefix items
+            pos = 0
+            for n_, it_ in enumerate(base.a[0]):
+                o = self._item_octets(it_)
+                if o is None:
+                    if it_.k == "bytes" and n_ == len(base.a[0]) - 1:
+                        return self.do_index(it_.a[0], C(i.a[0] - pos), env, node)
+                    break
+                if i.a[0] < pos + len(o):
+                    return o[i.a[0] - pos]
+                pos += len(o)
         if base.k == "bcat" and i.k == "const":
-            # index into a byte string under construction (rare)
             return T("idx", base, i, ty="int")
         ety = base.ty[1] if isinstance(base.ty, tuple) and base.ty[0] == "list" else None
         if isinstance(base.ty, tuple) and base.ty[0] == "tuple" and base.ty[1] and i.k == "const" \
